@@ -116,3 +116,33 @@ theorem callKw_ok {gd : GateDef} {new : List (String × Val)} {g : Stmt} (h : ca
     exact finish_ok h
 
 end Jaqal.GateDef
+
+namespace Jaqal
+
+/-! ### error classes -/
+
+/-- the error, if any, is a `JaqalError` -/
+def JaqalOnly {α} (x : M α) : Prop := ∀ e, x = .error e → ∃ t, e = .jaqal t
+
+theorem JaqalOnly.ok {α} (a : α) : JaqalOnly (.ok a : M α) := by intro e h; cases h
+theorem JaqalOnly.pure {α} (a : α) : JaqalOnly (Pure.pure a : M α) := by intro e h; cases h
+theorem JaqalOnly.ite {α} {c : Prop} [Decidable c] {x y : M α} (hx : JaqalOnly x) (hy : JaqalOnly y) :
+    JaqalOnly (if c then x else y) := by
+  split <;> assumption
+theorem JaqalOnly.jaqal {α} (t : String) : JaqalOnly (.error (.jaqal t) : M α) := by
+  intro e h; cases h; exact ⟨_, rfl⟩
+
+theorem JaqalOnly.bind {α β} {x : M α} {f : α → M β} (hx : JaqalOnly x) (hf : ∀ a, x = .ok a → JaqalOnly (f a)) :
+    JaqalOnly (x >>= f) := by
+  intro e h
+  cases hxx : x with
+  | error e' =>
+    rw [hxx] at h
+    simp only [Bind.bind, Except.bind, Except.error.injEq] at h
+    subst h; exact hx _ hxx
+  | ok a =>
+    rw [hxx] at h
+    exact hf a hxx e h
+
+end Jaqal
+
